@@ -5,6 +5,7 @@ import Driver.Util
 import Driver.Gateway
 import Driver.Cli
 import Driver.Client
+import Driver.System
 
 open Driver
 
@@ -84,6 +85,10 @@ def main (args : List String) : IO UInt32 := do
   | ["cli"] =>
     let (n, k) ← stLoop stdin stdout cliLine ({} : CliState) 0 0
     stdout.putStrLn s!"SUMMARY cli lines={n} reports={k}"
+    return 0
+  | ["system"] =>
+    let (n, k) ← caseLoop stdin stdout systemCase none #[] 0 0
+    stdout.putStrLn s!"SUMMARY system cases={n} reports={k}"
     return 0
   | ["tx"] =>
     let (n, k) ← caseLoop stdin stdout txCase none #[] 0 0
